@@ -1,2 +1,3 @@
 pub mod pq;
+pub mod sched;
 pub mod sinks;
